@@ -167,3 +167,14 @@ def suites(tier, seed):
         Suite("tune-random", "tune", lambda: gen_random(tier, seed), monitor=monitor, nontrivial=nontrivial, spec_engine="tune-spec",
               rule="random six-tuples, 20% zeros, 30% boundary values"),
     ]
+
+
+# --- suites of neighbouring properties that also decide this one (cross-listed after wave 6) ---------
+_suites_before_wave6 = suites
+
+
+def suites(tier, seed):
+    def borrow(mod, names):
+        m = __import__("props." + mod, fromlist=["x"])
+        return [s_ for s_ in m.suites(tier, seed) if s_.name in names]
+    return borrow("c10", ("slots-random", "slots-exhaustive", "slots-boundary")) + _suites_before_wave6(tier, seed)
